@@ -331,6 +331,10 @@ impl<'a> World<'a> {
         let sig_other_key: Signature = target.sign(&self.reps[other].signer).expect("sign");
         book.seq += 1;
         let marker = format!("marker {}", book.seq);
+        // mostly on top of everything the author knows; sometimes on top of the root only, that is
+        // concurrent with everything else (then "written after the acceptance" does not hold)
+        let on_root_only = self.ch.pick(4) == 3;
+        let tips: Vec<Oid> = if on_root_only { vec![Oid::from(**oid)] } else { obj.history.tips().into_iter().collect() };
         let kind;
         let mut embeds: Vec<radicle_cob::Embed<Oid>> = vec![];
         let acts: Vec<Action> = match self.ch.pick(11) {
@@ -367,7 +371,9 @@ impl<'a> World<'a> {
             }
             7 => {
                 kind = "edit-the-current-revision";
-                book.edits_after_accept.push((current, marker.clone()));
+                if !on_root_only {
+                    book.edits_after_accept.push((current, marker.clone()));
+                }
                 vec![Action::RevisionEdit { revision: current, title: marker.clone(), description: String::new() }]
             }
             8 => {
@@ -379,7 +385,9 @@ impl<'a> World<'a> {
                     book.redactions_after_accept.insert(a.id);
                     vec![Action::RevisionRedact { revision: a.id }]
                 } else {
-                    book.edits_after_accept.push((a.id, marker.clone()));
+                    if !on_root_only {
+                        book.edits_after_accept.push((a.id, marker.clone()));
+                    }
                     vec![Action::RevisionEdit { revision: a.id, title: marker.clone(), description: String::new() }]
                 }
             }
@@ -413,7 +421,6 @@ impl<'a> World<'a> {
                 vec![Action::Revision { title: marker.clone(), description: String::new(), blob, parent: Some(current), signature }]
             }
         };
-        let tips: Vec<Oid> = if self.ch.pick(4) == 3 { vec![Oid::from(**oid)] } else { obj.history.tips().into_iter().collect() };
         let contents: Vec<Vec<u8>> = acts.iter().map(|a| encoding::encode(a).unwrap()).collect();
         let Some(contents) = NonEmpty::from_vec(contents) else { return };
         let out = catch(|| -> Result<(), String> {
@@ -530,14 +537,11 @@ impl<'a> World<'a> {
                 self.res.violate(&own, "C04", "C04/accepted-revision-off-the-current-chain", format!("{name}: {} is accepted but the current document does not descend from it", self.rname(&rev.id)));
             }
         }
-        // ---- an accepted revision is not edited afterwards
-        for (rid, marker) in &book.edits_after_accept {
-            if let Some(rev) = by_id.get(rid) {
-                if rev.state == identity::State::Accepted && rev.title == *marker {
-                    self.res.violate(&own, "C04", "C04/accepted-revision-edited", format!("{name}: the accepted {} carries the title of an edit written after it was accepted", self.rname(rid)));
-                }
-            }
-        }
+        // (No oracle on "an accepted revision is not edited afterwards": whether an edit written after the
+        // writer saw the acceptance is applied before or after the adopting vote on a replica that holds more
+        // concurrent changes is decided by the deterministic order, so no state-based statement about it is
+        // sound. Edits of the current revision are refused twice in the code: current, and not active.)
+        let _ = &book.edits_after_accept;
         let _ = &book.redactions_after_accept; // redaction of a chain member is caught by the chain walk
         // ---- the document the repository uses is the current revision's
         if let Ok(doc) = repo.identity_doc() {
